@@ -29,7 +29,9 @@ fn scenario(words: &[u16]) -> Scenario {
     cfg.threads = d.pick(&[2usize, 1, 8]);
     let p = Profile { max_cas: 5, max_tals: 1, max_objs: 2, versions: 1, fault_16: 0, obj_faults: false, cert_faults: false, pp_faults: false, vary_cfg: false, modules: 2, rrdp_16: 0, rrdp_repos: 2 };
     // A's blocks inside 10.200.0.0/14 and 2001:db8:c800::/38
-    let slash_zero = d.chance(2, 16);
+    // 0 = specific blocks only, 1 = 0.0.0.0/0 and ::/0, 2 = 0.0.0.0/0 + specific IPv6, 3 = specific IPv4 + ::/0
+    let zero_kind = d.pick(&[0u8, 0, 0, 0, 0, 0, 0, 0, 0, 0, 1, 1, 2, 2, 3, 3]);
+    let slash_zero = zero_kind != 0;
     let mut a_res = Res { v4: vec![], v6: vec![], asn: vec![] };
     let n4 = 1 + d.below(2);
     let mut blocks4: Vec<(u32, u8)> = Vec::new();
@@ -44,8 +46,11 @@ fn scenario(words: &[u16]) -> Scenario {
     let base6: u128 = (0x2001_0db8_c800u128 << 80) + ((d.below(8) as u128) << 84);
     let (a6, l6) = v6(base6, len6);
     a_res.v6.push((a6, l6));
-    if slash_zero {
-        a_res = Res { v4: vec![(Ipv4Addr::new(0, 0, 0, 0), 0)], v6: vec![(Ipv6Addr::from(0u128), 0)], asn: vec![] };
+    if zero_kind == 1 || zero_kind == 2 {
+        a_res.v4 = vec![(Ipv4Addr::new(0, 0, 0, 0), 0)];
+    }
+    if zero_kind == 1 || zero_kind == 3 {
+        a_res.v6 = vec![(Ipv6Addr::from(0u128), 0)];
     }
     // B covers the whole region
     let b_res = if slash_zero { Res { v4: vec![(Ipv4Addr::new(0, 0, 0, 0), 0)], v6: vec![(Ipv6Addr::from(0u128), 0)], asn: vec![] } } else { Res { v4: vec![(Ipv4Addr::new(10, 192, 0, 0), 11)], v6: vec![v6(0x2001_0db8_c000u128 << 80, 35)], asn: vec![] } };
@@ -150,13 +155,16 @@ fn prop(sc: &Scenario, info: &mut CaseInfo) -> Verdict {
     info.class(format!("unsafe_policy_{}", sc.cfg.unsafe_vrps));
     info.class(if rejected { "A_rejected" } else { "A_accepted" });
     if sc.cas[1].extra_res.as_ref().map(|r| r.v4.iter().any(|x| x.1 == 0)).unwrap_or(false) {
-        info.class("A_holds_slash_zero");
+        info.class("A_holds_v4_slash_zero");
+    }
+    if sc.cas[1].extra_res.as_ref().map(|r| r.v6.iter().any(|x| x.1 == 0)).unwrap_or(false) {
+        info.class("A_holds_v6_slash_zero");
     }
     v
 }
 
 pub fn run(ctx: &Ctx, rep: &mut Report, replay: Option<&serde_json::Value>) {
-    rep.rule("E-rpki trees TA -> {A, B} (+ optional child of A): A holds 1-2 IPv4 blocks (/16../24) and an IPv6 block (/40../48) or only 0.0.0.0/0 and ::/0, and is rejected in most cases (bad/missing/garbage manifest, bad CRL, missing file, stale manifest under reject); B holds a covering region and issues a ROA whose prefixes are built relative to A's blocks: equal, covering, covered, adjacent above/below, first small block after the end, last address before the start, IPv6 counterparts; unsafe-vrps in {reject, warn, accept}; oracle: served set equals the model computed with own u128 interval arithmetic (reject: nothing overlapping A's non-/0 blocks and nothing else removed; warn/accept: unfiltered), point counts match; non-trivial = A rejected and B has >=1 overlapping and >=1 disjoint prefix; distinct by serialised scenario");
+    rep.rule("E-rpki trees TA -> {A, B} (+ optional child of A): A holds 1-2 IPv4 blocks (/16../24) and an IPv6 block (/40../48) or 0.0.0.0/0 and/or ::/0 in place of one or both families (a whole-family block next to specific blocks of the other family), and is rejected in most cases (bad/missing/garbage manifest, bad CRL, missing file, stale manifest under reject); B holds a covering region and issues a ROA whose prefixes are built relative to A's blocks: equal, covering, covered, adjacent above/below, first small block after the end, last address before the start, IPv6 counterparts; unsafe-vrps in {reject, warn, accept}; oracle: served set equals the model computed with own u128 interval arithmetic (reject: nothing overlapping A's non-/0 blocks and nothing else removed; warn/accept: unfiltered), point counts match; non-trivial = A rejected and B has >=1 overlapping and >=1 disjoint prefix; distinct by serialised scenario");
     rep.assume("reference model Appendix A");
     ctx.shrink_iters.store(150, std::sync::atomic::Ordering::Relaxed);
     if let Some(v) = replay {
